@@ -208,6 +208,10 @@ func Load(dir string, overlay map[string][]byte) (*Program, error) {
 		anonRoleCache = map[*ssa.Function]string{}
 		index()
 	}
+	if resolveCallbacks(p) {
+		anonRoleCache = map[*ssa.Function]string{}
+		index()
+	}
 	return p, nil
 }
 
@@ -385,6 +389,153 @@ func resolveRenames(p *Program) bool {
 	return found
 }
 
+// resolveCallbacks: a known closure P$role no longer exists, but P now passes
+// a method value (or a named function) that did not exist before in the same
+// role (the closure was turned into a method on a small state struct): that
+// function stands for the closure, its receiver's fields for the captured
+// variables (see cbEnv).
+func resolveCallbacks(p *Program) bool {
+	found := false
+	for name := range knownFuncs {
+		i := strings.LastIndex(name, "$")
+		if i < 0 {
+			continue
+		}
+		if _, ok := p.funcs[name]; ok {
+			continue
+		}
+		parentName, role := name[:i], name[i+1:]
+		if strings.Contains(parentName, "$") {
+			continue
+		}
+		parent := p.funcs[parentName]
+		if parent == nil || parent.Blocks == nil {
+			continue
+		}
+		var cands []*ssa.Function
+		for _, b := range parent.Blocks {
+			for _, in := range b.Instrs {
+				call, ok := in.(*ssa.Call)
+				if !ok || roleOfCallee(&call.Call) != role {
+					continue
+				}
+				for _, a := range call.Call.Args {
+					if m := callbackTarget(p.SSA, a); m != nil {
+						cands = append(cands, m)
+					}
+				}
+			}
+		}
+		if len(cands) != 1 {
+			continue
+		}
+		m := cands[0]
+		if _, known := knownFuncs[QualName(m)]; known {
+			continue
+		}
+		if !strings.HasPrefix(fnPkgPath(m), modPath) {
+			continue
+		}
+		funcAlias[m] = name
+		found = true
+		// a method: its receiver's struct is the callback's environment
+		if m.Signature != nil && m.Signature.Recv() != nil {
+			t := m.Signature.Recv().Type()
+			ptr := false
+			if pt, ok := t.(*types.Pointer); ok {
+				t, ptr = pt.Elem(), true
+			}
+			if n, ok := t.(*types.Named); ok {
+				if stt, ok := n.Underlying().(*types.Struct); ok {
+					envMethods[m] = &envInfo{parent: parent, named: n, st: stt, ptrRecv: ptr}
+					envStructs[n.Obj()] = true
+					// the parent's variable(s) bound as the receiver
+					for _, b := range parent.Blocks {
+						for _, in := range b.Instrs {
+							if mc, ok := in.(*ssa.MakeClosure); ok && len(mc.Bindings) == 1 && callbackTarget(p.SSA, mc) == m {
+								if al, ok := mc.Bindings[0].(*ssa.Alloc); ok {
+									envAllocs[al] = true
+								}
+							}
+						}
+					}
+				}
+			}
+		}
+	}
+	return found
+}
+
+// envInfo: a method that stands for a closure (resolveCallbacks). The fields
+// of its receiver play the part of the closure's captured variables: the
+// walker names them like free variables inside the method and like separate
+// locals in the function that builds the struct, so that the rules written for
+// the closure form read both forms alike.
+type envInfo struct {
+	parent  *ssa.Function
+	named   *types.Named
+	st      *types.Struct
+	ptrRecv bool
+}
+
+var envMethods = map[*ssa.Function]*envInfo{}
+var envStructs = map[*types.TypeName]bool{}
+var envAllocs = map[*ssa.Alloc]bool{}
+
+// envStructPtr: is t a pointer to a callback environment struct?
+func envStructPtr(t types.Type) *types.Struct {
+	if len(envStructs) == 0 {
+		return nil
+	}
+	pt, ok := t.Underlying().(*types.Pointer)
+	if !ok {
+		return nil
+	}
+	n, ok := pt.Elem().(*types.Named)
+	if !ok || !envStructs[n.Obj()] {
+		return nil
+	}
+	stt, _ := n.Underlying().(*types.Struct)
+	return stt
+}
+
+// envRecv: is v the receiver parameter of a callback method?
+func envRecv(v ssa.Value) bool {
+	p, ok := v.(*ssa.Parameter)
+	if !ok || len(envMethods) == 0 {
+		return false
+	}
+	fn := p.Parent()
+	return fn != nil && envMethods[fn] != nil && len(fn.Params) > 0 && fn.Params[0] == p
+}
+
+// callbackTarget: the method behind a method value, or the named function,
+// passed as a function argument.
+func callbackTarget(prog *ssa.Program, v ssa.Value) *ssa.Function {
+	for {
+		if ct, ok := v.(*ssa.ChangeType); ok {
+			v = ct.X
+			continue
+		}
+		break
+	}
+	switch x := v.(type) {
+	case *ssa.MakeClosure:
+		f, ok := x.Fn.(*ssa.Function)
+		if !ok || f.Parent() != nil || !strings.HasSuffix(f.Name(), "$bound") {
+			return nil
+		}
+		if obj, ok := f.Object().(*types.Func); ok {
+			return prog.FuncValue(obj)
+		}
+	case *ssa.Function:
+		if x.Parent() == nil && x.Synthetic == "" {
+			return x
+		}
+	}
+	return nil
+}
+
 // QualName gives a stable, position-free name: "<pkg-rel-path>.<RelString>",
 // e.g. "syncer.(*NativeIterator).Merge", "syncer.(*Syncer).LoadOnce$update".
 // Generic instantiations are named after their origin.
@@ -501,6 +652,35 @@ func (p *Program) RepoFuncs() []*ssa.Function {
 	return out
 }
 
+// roleOfCallee: the role a function argument of this call plays ("update" for
+// the body of a write transaction, ...).
+func roleOfCallee(c *ssa.CallCommon) string {
+	name := ""
+	if f := c.StaticCallee(); f != nil {
+		name = f.String()
+		if a, ok := funcAlias[f]; ok {
+			name = a // a renamed repository function keeps its known name
+		}
+	}
+	switch {
+	case strings.HasSuffix(name, "lmdb.Env).Update") || strings.HasSuffix(name, "Update$bound"):
+		return "update"
+	case strings.HasSuffix(name, "lmdb.Env).View") || strings.HasSuffix(name, "View$bound"):
+		return "view"
+	case strings.HasSuffix(name, "slices.SortFunc") || strings.Contains(name, "slices.SortFunc["):
+		return "sort"
+	case strings.Contains(name, "lo.Filter"):
+		return "filter"
+	case strings.HasSuffix(name, "strategy.iterBoth"):
+		return "callback"
+	case strings.HasSuffix(name, "DBI).Map"):
+		return "map"
+	case name == "":
+		return "txn" // dynamic call through a function value (e.g. inTxn)
+	}
+	return ""
+}
+
 var anonRoleCache = map[*ssa.Function]string{}
 
 // anonRole names an anonymous function by its use in the parent.
@@ -545,32 +725,7 @@ func anonRole(parent, fn *ssa.Function) string {
 		}
 		return nil
 	}
-	calleeBase := func(c *ssa.CallCommon) string {
-		name := ""
-		if f := c.StaticCallee(); f != nil {
-			name = f.String()
-			if a, ok := funcAlias[f]; ok {
-				name = a // a renamed repository function keeps its known name
-			}
-		}
-		switch {
-		case strings.HasSuffix(name, "lmdb.Env).Update") || strings.HasSuffix(name, "Update$bound"):
-			return "update"
-		case strings.HasSuffix(name, "lmdb.Env).View") || strings.HasSuffix(name, "View$bound"):
-			return "view"
-		case strings.HasSuffix(name, "slices.SortFunc") || strings.Contains(name, "slices.SortFunc["):
-			return "sort"
-		case strings.Contains(name, "lo.Filter"):
-			return "filter"
-		case strings.HasSuffix(name, "strategy.iterBoth"):
-			return "callback"
-		case strings.HasSuffix(name, "DBI).Map"):
-			return "map"
-		case name == "":
-			return "txn" // dynamic call through a function value (e.g. inTxn)
-		}
-		return ""
-	}
+	calleeBase := roleOfCallee
 	for _, b := range parent.Blocks {
 		for _, in := range b.Instrs {
 			switch x := in.(type) {
